@@ -1,0 +1,23 @@
+//go:build verif
+
+package engine
+
+import "github.com/jmeaster30/vore/libvore/bytecode"
+
+// VerifStepHook, when set, is called before every instruction the matching VM
+// executes (verification builds only).
+var VerifStepHook func(pc int, inst bytecode.SearchInstruction, state *SearchEngineState)
+
+func verifStep(inst bytecode.SearchInstruction, state *SearchEngineState) {
+	if VerifStepHook != nil {
+		VerifStepHook(state.programCounter, inst, state)
+	}
+}
+
+// Read-only accessors for verification harnesses.
+func (es *SearchEngineState) VerifOffset() int         { return es.currentFileOffset }
+func (es *SearchEngineState) VerifStartOffset() int    { return es.startFileOffset }
+func (es *SearchEngineState) VerifMatchLen() int       { return len(es.currentMatch) }
+func (es *SearchEngineState) VerifBacktrackDepth() int { return int(es.backtrack.Size()) }
+func (es *SearchEngineState) VerifCallDepth() int      { return int(es.callStack.Size()) }
+func (es *SearchEngineState) VerifLoopDepth() int      { return int(es.loopStack.Size()) }
